@@ -15,7 +15,7 @@ def optChars (j : Json) : Except String (Option (List Char)) :=
   | Json.null => pure none
   | v => do return some (← v.getStr?).toList
 
-/-- `{"t":"path","p":…} | {"t":"loc","loc":…,"file":…|null} | {"t":"locs","locs":[…],"file":…|null} | {"t":"paths","ps":[…]} | {"t":"file","c":…|null} | {"t":"files","cs":[…|null]} | {"t":"failed"}` -/
+/-- `{"t":"path","p":…} | {"t":"loc","loc":…,"file":…|null} | {"t":"locs","locs":[…],"file":…|null} | {"t":"paths","ps":[…]} | {"t":"insts","insts":[{"id":…,"loc":…}],"file":…|null} | {"t":"instfiles","insts":[{"id":…,"c":…|null}]} | {"t":"file","c":…|null} | {"t":"files","cs":[…|null]} | {"t":"failed"}` -/
 def parseSource (j : Json) : Except String Source := do
   match (← getStr j "t") with
   | "path" => return .path (← getChars j "p")
@@ -25,6 +25,16 @@ def parseSource (j : Json) : Except String Source := do
   | "locs" =>
     let f ← optChars (← j.getObjVal? "file")
     return .paths ((← getCharsList j "locs").map fun l => loopRefPath l f)
+  -- the loop instances of a placeholder as (id, location) / (id, contents) pairs in ANY order: the model orders them
+  | "insts" =>
+    let f ← optChars (← j.getObjVal? "file")
+    let insts ← (← getArr j "insts").mapM fun x => do
+      return ((← getChars x "id"), (← getChars x "loc"))
+    return loopRefSource insts f
+  | "instfiles" =>
+    let insts ← (← getArr j "insts").mapM fun x => do
+      return ((← getChars x "id"), (← optChars (← x.getObjVal? "c")))
+    return loopOutputSource insts
   | "file" => return .file (← optChars (← j.getObjVal? "c"))
   | "files" => return .files (← (← getArr j "cs").mapM optChars)
   | "failed" => return .failed
